@@ -474,6 +474,16 @@ func (t *transitiveClosure) addElement(
 		}
 
 	case *descriptorpb.DescriptorProto:
+		if typedDescriptor.GetOptions().GetMapEntry() {
+			// A map entry must keep both of its fields. If the key or value type is excluded,
+			// the whole entry (and with it the map field) is excluded.
+			for _, field := range typedDescriptor.GetField() {
+				if t.isFieldTypeExcluded(field, imageIndex) {
+					t.elements[descriptor] = inclusionModeExcluded
+					return nil
+				}
+			}
+		}
 		oneofFieldCounts := make([]int, len(typedDescriptor.GetOneofDecl()))
 		// Options and types for all fields
 		for _, field := range typedDescriptor.GetField() {
@@ -790,6 +800,11 @@ func (t *transitiveClosure) addFieldType(field *descriptorpb.FieldDescriptorProt
 		if err != nil {
 			return false, err
 		}
+		if mode := t.elements[info.element]; mode == inclusionModeExcluded {
+			// The type turned out to be excluded while it was added, i.e. a map entry whose
+			// value type is excluded.
+			return false, nil
+		}
 	case descriptorpb.FieldDescriptorProto_TYPE_DOUBLE,
 		descriptorpb.FieldDescriptorProto_TYPE_FLOAT,
 		descriptorpb.FieldDescriptorProto_TYPE_INT64,
@@ -810,6 +825,32 @@ func (t *transitiveClosure) addFieldType(field *descriptorpb.FieldDescriptorProt
 		return false, fmt.Errorf("unknown field type %d", field.GetType())
 	}
 	return true, nil
+}
+
+// isFieldTypeExcluded returns true if the field's message or enum type is excluded. A map entry
+// type is considered excluded if its key or value type is excluded.
+func (t *transitiveClosure) isFieldTypeExcluded(field *descriptorpb.FieldDescriptorProto, imageIndex *imageIndex) bool {
+	switch field.GetType() {
+	case descriptorpb.FieldDescriptorProto_TYPE_ENUM,
+		descriptorpb.FieldDescriptorProto_TYPE_MESSAGE,
+		descriptorpb.FieldDescriptorProto_TYPE_GROUP:
+		typeName := protoreflect.FullName(strings.TrimPrefix(field.GetTypeName(), "."))
+		info, ok := imageIndex.ByName[typeName]
+		if !ok {
+			return false
+		}
+		if t.elements[info.element] == inclusionModeExcluded {
+			return true
+		}
+		if message, ok := info.element.(*descriptorpb.DescriptorProto); ok && message.GetOptions().GetMapEntry() {
+			for _, entryField := range message.GetField() {
+				if t.isFieldTypeExcluded(entryField, imageIndex) {
+					return true
+				}
+			}
+		}
+	}
+	return false
 }
 
 func (t *transitiveClosure) addExtensions(
